@@ -46,7 +46,17 @@ RULE = ("seconds {range ends, +-1 around them, -1, 0, 1, random} x microseconds 
         "bytes only / legacy number only / BOTH, where the bytes are the canonical +HHMM of the number, another spelling "
         "(+200, +02, +1, +0160, empty, 6 bytes, junk), or the bytes of a DIFFERENT number; negative_utc absent / None / "
         "False / True (also contradicting the bytes); offset None; timestamp as {seconds, microseconds} / int / datetime / "
-        "ISO string / other; unknown extra keys; the argument dict must not be modified; ISO-8601 strings incl. -00:00; raw offset bytes in "
+        "ISO string / other; unknown extra keys; the argument dict must not be modified (deep copy compared) and the same call "
+        "made twice must give the same result; containers: dict / OrderedDict (reversed key order) / dict subclass / "
+        "MappingProxyType for the argument and for the timestamp member; offset_bytes as bytes / bytes subclass / bytearray / "
+        "None / list / int / str; negative_utc and the flag of from_numeric_offset as bool / None / 0 / 1 / '' / 'x' / '0'; "
+        "offset as bool; from_numeric_offset by position and by keyword; seconds / microseconds as int / bool / int subclass / "
+        "float 0.0, 5.0, 1.5 / str / bytes / None, seconds also 2^31, 2^33, 2^34+-1, +-2^63, 10^30, microseconds also 9, 90, 99, "
+        "100, 999985; datetimes as instances of a datetime subclass, with a hand-written tzinfo class, with a tzinfo whose "
+        "utcoffset() is None, a date object; ISO strings also date-only / YYYY-MM / YYYY / without seconds / hour only / basic "
+        "format / comma / more than 6 fraction digits (truncation) / one-digit month and day / tz minutes >= 60; for a "
+        "deterministic third of the objects (and all with non-5-byte offset bytes) the other routes are walked: to_dict() "
+        "shape, from_dict(to_dict()), keyword and positional constructor, Timestamp.from_dict - equal object, equal hash; ISO-8601 strings incl. -00:00; raw offset bytes in "
         "[+-][0-9]+ incl. the 4300-digit int() limit.  non-trivial = non-zero microseconds, or an offset whose minute "
         "part is not 0, or seconds < 0, or an error branch; distinct = distinct canonical case")
 TRUSTED = [
@@ -67,6 +77,9 @@ ASSUMPTIONS = [
     "for named zones only whole-minute offsets are in scope of the round trip (same offset back); for other offsets "
     "(LMT, Amsterdam before 1940, Monrovia before 1972) seconds/microseconds must still be exact and the instant kept",
     "no observable may depend on the machine's local zone (cases are run under several TZ settings)",
+    "offsets whose hour field needs more than 4300 digits (int<->str conversion limit inside the f-string) are not "
+    "generated: neither the harness nor json can print them; offsets up to 10^30 are (the assert fires)",
+    "wrong-typed `timestamp` argument of the direct TimestampWithTimezone constructor is not explored (not in the property)",
 ]
 CASE_TIMEOUT = 60
 
@@ -98,6 +111,49 @@ ERRMAP = {"TimestampOverflow": "ValueError", "AttributeType": "ValueError", "Val
 
 
 # ---------------------------------------------------------------- value encodings
+class IntSub(int):
+    """an int subclass: equal to the int, but value.__class__ is not int"""
+
+
+class BytesSub(bytes):
+    """a bytes subclass: isinstance(x, bytes) holds"""
+
+
+class DictSub(dict):
+    pass
+
+
+class DtSub(D.datetime):
+    pass
+
+
+class FixedTz(D.tzinfo):
+    """a hand-written tzinfo (not datetime.timezone) with a constant offset"""
+    def __init__(self, off_s):
+        self.off_s = off_s
+
+    def utcoffset(self, dt):
+        return D.timedelta(seconds=self.off_s)
+
+    def dst(self, dt):
+        return None
+
+    def tzname(self, dt):
+        return "fixed"
+
+
+class NoneTz(D.tzinfo):
+    """tzinfo is set but utcoffset() is None: the datetime is naive"""
+    def utcoffset(self, dt):
+        return None
+
+    def dst(self, dt):
+        return None
+
+    def tzname(self, dt):
+        return "none"
+
+
 def pv(tok):
     """pyval token -> Python value"""
     if tok[0] == "i":
@@ -108,7 +164,10 @@ def pv(tok):
         return False
     return {"o:none": None, "o:float": 1.5, "o:str": "12", "o:bytes": b"12",
             "o:datetime": D.datetime(2020, 1, 1, 12, 0, 0, 5, tzinfo=D.timezone.utc),
-            "o:iso": "2020-01-01T12:00:00.000005+00:00", "o:list": [0, 0]}[tok]
+            "o:iso": "2020-01-01T12:00:00.000005+00:00", "o:list": [0, 0],
+            "o:intsub": IntSub(5), "o:intsub0": IntSub(0), "o:float0": 0.0, "o:float5": 5.0,
+            "o:date": D.date(2020, 1, 1), "o:proxy": __import__("types").MappingProxyType({"timestamp": 0, "offset_bytes": b"+0000"}),
+            "o:tstz-dict-str": "{'timestamp': 0, 'offset': 0}"}[tok]
 
 
 def pv_tok(tok):
@@ -131,6 +190,39 @@ def tsrepr_value(t):
     if b != "absent":
         d["microseconds"] = pv(b)
     return d
+
+
+def ob_value(tok):
+    """the value of the "offset_bytes" member: hex = bytes; sub:<hex> = a bytes subclass (accepted, kept);
+    nonbytes[:kind] = something that is not a bytes object (rejected)"""
+    if tok.startswith("sub:"):
+        return BytesSub(core.unhx(tok[4:] or "."))
+    if tok.startswith("nonbytes"):
+        kind = tok.partition(":")[2] or "str"
+        return {"str": "+0000", "bytearray": bytearray(b"+0000"), "memoryview": memoryview(b"+0000"), "none": None,
+                "list": [43, 48, 48, 48, 48], "int": 0}[kind]
+    return core.unhx(tok or ".")
+
+
+def ob_tok(tok):
+    if tok.startswith("sub:"):
+        return tok[4:] or "."
+    if tok.startswith("nonbytes"):
+        return "nonbytes"
+    return tok or "."
+
+
+def neg_value(v):
+    """negative_utc as given: booleans, None, and other truthy / falsy objects ("s:<text>" = that str)"""
+    if isinstance(v, str) and v.startswith("s:"):
+        return v[2:]
+    if v == "none":
+        return None
+    return v
+
+
+def neg_truth(v):
+    return bool(neg_value(v)) if v != "absent" else False
 
 
 def tsrepr_tok(t):
@@ -184,9 +276,18 @@ def dt_of_case(c):
         tz = tz_of(lib, c["zone"])
         if lib == "pytz":
             # pytz has no fold: is_dst=True picks the first occurrence of a repeated wall time, False the second
-            return tz.localize(w, is_dst=(c.get("fold", 0) == 0))
-        return w.replace(tzinfo=tz, fold=c.get("fold", 0))
-    return w.replace(tzinfo=D.timezone(D.timedelta(seconds=c["off_s"])))
+            return _maybe_sub(tz.localize(w, is_dst=(c.get("fold", 0) == 0)), c)
+        return _maybe_sub(w.replace(tzinfo=tz, fold=c.get("fold", 0)), c)
+    if c.get("tzclass") == "custom":
+        return _maybe_sub(w.replace(tzinfo=FixedTz(c["off_s"])), c)
+    return _maybe_sub(w.replace(tzinfo=D.timezone(D.timedelta(seconds=c["off_s"]))), c)
+
+
+def _maybe_sub(dt, c):
+    """the same value as an instance of a datetime subclass"""
+    if not c.get("dtsub"):
+        return dt
+    return DtSub(dt.year, dt.month, dt.day, dt.hour, dt.minute, dt.second, dt.microsecond, tzinfo=dt.tzinfo, fold=dt.fold)
 
 
 # POSIX TZ strings (no zone file needed): the machine's local zone under which a share of the cases is run
@@ -225,8 +326,9 @@ def abstr(dt):
 
 
 # ---------------------------------------------------------------- generators
-SEC_EDGE = [MIN_S, MAX_S, MIN_S - 1, MAX_S + 1, MIN_S + 1, MAX_S - 1, -1, 0, 1]
-US_POOL = [0, 1, 10, 100000, 999999, 500000, -1, 10 ** 6, 123456, 120000, 999990, 7]
+SEC_EDGE = [MIN_S, MAX_S, MIN_S - 1, MAX_S + 1, MIN_S + 1, MAX_S - 1, -1, 0, 1,
+            2 ** 34, -2 ** 34, 2 ** 34 - 1, 2 ** 33, 2 ** 31, -2 ** 31 - 1, 2 ** 63, -2 ** 63, 10 ** 30]
+US_POOL = [0, 1, 10, 100000, 999999, 500000, -1, 10 ** 6, 123456, 120000, 999990, 7, 9, 90, 99, 100, 999985]
 
 
 def rnd_sec(rng):
@@ -302,7 +404,13 @@ def gen_dt_fixed(rng, off_s):
     w = e + off_s * M
     if not valid_wall(w):
         w = min(max(w, DT_MIN_US), DT_MAX_US)
-    return {"k": "dt", "wall_us": w, "off_s": off_s}
+    c = {"k": "dt", "wall_us": w, "off_s": off_s}
+    r = rng.random()
+    if r < 0.15:
+        c["tzclass"] = "custom"
+    if rng.random() < 0.1:
+        c["dtsub"] = True
+    return c
 
 
 def gen_dt_zone(rng):
@@ -316,6 +424,8 @@ def gen_dt_zone(rng):
         w = rng.choice([DT_MIN_US, DT_MAX_US]) + rng.randrange(-2 * 86400 * M, 2 * 86400 * M)
         w = min(max(w, DT_MIN_US), DT_MAX_US)
     c = {"k": "dt", "wall_us": w, "zone": z, "fold": rng.randrange(2)}
+    if rng.random() < 0.1:
+        c["dtsub"] = True
     if r < 0.6 and rng.random() < 0.4:
         lib = rng.choice(TZ_LIBS)
         if lib != "zoneinfo" and tz_of(lib, z) is not None:
@@ -390,6 +500,8 @@ def gen_at_transition(rng, zone, T, ob, oa, n_inside=3):
 
     def add(wall_s, us, fold, wh, lib):
         c = {"k": "dt", "wall_us": wall_s * M + us, "zone": zone, "fold": fold, "lib": lib, "where": wh}
+        if rng.random() < 0.08:
+            c["dtsub"] = True
         try:
             if abstr(dt_of_case(c)) is None:
                 return
@@ -451,7 +563,50 @@ def gen_iso(rng):
             "exp_off": off_min, "minus0": tz in ("-00:00", "-0000", "-00")}
 
 
-OTHERS = ["o:none", "o:float", "o:str", "o:bytes"]
+def gen_iso_forms(rng):
+    """the other spellings iso8601 accepts: date only, no seconds, hour only, basic format, comma, > 6 fraction digits
+    (truncated, not rounded), one-digit month/day, tz minutes >= 60"""
+    y = rng.choice([1, 1969, 1970, 2000, 2024, 9999, rng.randrange(1, 10000)])
+    m = rng.randrange(1, 13)
+    d = rng.randrange(1, calendar.monthrange(y, m)[1] + 1)
+    H, Mi, S = rng.randrange(24), rng.randrange(60), rng.randrange(60)
+    sg, th, tm = rng.choice("+-"), rng.randrange(24), rng.choice([0, 30, 45, 59, rng.randrange(60)])
+    tz, off = rng.choice([("Z", 0), ("", 0), ("-00:00", 0), ("%s%02d:%02d" % (sg, th, tm), (th * 60 + tm) * (1 if sg == "+" else -1)),
+                          ("%s%02d%02d" % (sg, th, tm), (th * 60 + tm) * (1 if sg == "+" else -1)),
+                          ("-00:30", -30), ("+01:75", 135), ("-23:59", -1439), ("+23:59", 1439)])
+    form = rng.choice(["date", "month", "year", "nosec", "hour", "basic", "comma", "longfrac", "onedigit"])
+    frac, us = "", 0
+    if form == "date":
+        s, H, Mi, S, tz, off = "%04d-%02d-%02d" % (y, m, d), 0, 0, 0, "", 0
+    elif form == "month":
+        s, d, H, Mi, S, tz, off = "%04d-%02d" % (y, m), 1, 0, 0, 0, "", 0
+    elif form == "year":
+        s, m, d, H, Mi, S, tz, off = "%04d" % y, 1, 1, 0, 0, 0, "", 0
+    elif form == "nosec":
+        s, S = "%04d-%02d-%02dT%02d:%02d%s" % (y, m, d, H, Mi, tz), 0
+    elif form == "hour":
+        s, Mi, S = "%04d-%02d-%02dT%02d%s" % (y, m, d, H, tz), 0, 0
+    elif form == "basic":
+        tzb = tz.replace(":", "")
+        s = "%04d%02d%02dT%02d%02d%02d%s" % (y, m, d, H, Mi, S, tzb)
+    elif form == "comma":
+        frac = "".join(rng.choice("0123456789") for _ in range(rng.randrange(1, 7)))
+        s = "%04d-%02d-%02dT%02d:%02d:%02d,%s%s" % (y, m, d, H, Mi, S, frac, tz)
+    elif form == "longfrac":
+        frac = "".join(rng.choice("0123456789") for _ in range(rng.randrange(7, 12)))
+        if rng.random() < 0.4:
+            frac = "999999" + frac[6:]
+        s = "%04d-%02d-%02dT%02d:%02d:%02d.%s%s" % (y, m, d, H, Mi, S, frac, tz)
+    else:
+        s = "%d-%d-%dT%02d:%02d:%02d%s" % (y, m, d, H, Mi, S, tz)
+        s = "%04d" % y + s[len(str(y)):]
+    if frac:
+        us = int((frac + "000000")[:6])
+    return {"k": "iso", "str": s, "exp_epoch_s": calendar.timegm((y, m, d, H, Mi, S)) - off * 60, "exp_us": us,
+            "exp_off": off, "minus0": tz.startswith("-00:00") or tz == "-0000", "form": form}
+
+
+OTHERS = ["o:none", "o:float", "o:str", "o:bytes", "o:intsub", "o:intsub0", "o:float0", "o:float5"]
 
 
 def rnd_pv(rng, v):
@@ -490,7 +645,7 @@ NONCANON = [b"+200", b"+0160", b"+1", b"", b"+00130", b"-54608", b"+02", b"-2", 
 DICT_TS = ["dict:i%d|i%d", "dict:i%d|absent", "int:i%d", "dict:absent|i%d"]
 DICT_TS_BAD = ["missing", "other:datetime", "other:iso", "other:str", "other:none", "other:float", "other:list",
                "dict:bT|i0", "dict:i0|bF", "int:bT", "dict:i%d|i0" % (MAX_S + 1), "dict:i0|i1000000", "dict:o:none|i0"]
-DICT_OFFS = [0, 120, -120, 330, -1, 1439, -720, 32767, -32768, 40000]
+DICT_OFFS = [0, 1, 120, -120, 330, -1, 1439, -720, 32767, -32768, 40000]
 
 
 def mk_ts_tok(rng, form):
@@ -520,6 +675,19 @@ def gen_dicts(rng, tier):
         c = {"k": "dict", "t": t, "ob": ob, "off": off, "neg": neg}
         if extra:
             c["extra"] = True
+        r = rng.random()
+        if r < 0.12:
+            c["wrap"] = rng.choice(["ordered", "sub", "ordered", "sub", "proxy"])
+        if t.startswith("dict:") and rng.random() < 0.12:
+            c["tswrap"] = rng.choice(["ordered", "sub"])
+        if ob not in ("absent", "nonbytes") and rng.random() < 0.1:
+            c["ob"] = "sub:" + ob
+        elif ob == "nonbytes" and rng.random() < 0.7:
+            c["ob"] = "nonbytes:" + rng.choice(["bytearray", "none", "list", "int", "str"])
+        if neg in (True, False) and rng.random() < 0.2:
+            c["neg"] = rng.choice([1, "s:x"]) if neg else rng.choice([0, "s:"])
+        if off in (0, 1) and rng.random() < 0.3:
+            c["off"] = bool(off)
         cases.append(c)
     offs = DICT_OFFS + ["absent", "none"]
     negs = ["absent", "none", False, True]
@@ -532,6 +700,11 @@ def gen_dicts(rng, tier):
                 reps = 1 if quick else 4
                 for _ in range(reps):
                     add(mk_ts_tok(rng, rng.choice(DICT_TS)), ob, off, neg, rng.random() < 0.2)
+    # flags that are truthy / falsy without being booleans, on the number-only and the both-keys form
+    for off in (0, 120, -120, False):
+        for neg in (0, 1, "s:", "s:x", "s:0"):
+            for ob in ("absent", canon_bytes(off).hex(), b"-0000".hex()):
+                add(mk_ts_tok(rng, rng.choice(DICT_TS)), ob, off, neg)
     # unacceptable / unusual "timestamp" members with every key combination
     for t in DICT_TS_BAD:
         for off in (120, "absent", "none"):
@@ -588,10 +761,22 @@ def gen(rng, tier):
     for _ in range(3000 if quick else 60000):
         cases.append({"k": "ts", "s": rnd_pv(rng, rnd_sec(rng)), "us": rnd_pv(rng, rnd_us(rng))})
     # 3. from_numeric_offset with real timestamps
+    # (the small systematic block first: offsets 0 / bool / negative x flags of every type and truth value)
+    for off in (0, True, False, -1, -720):
+        for neg in (False, True, 1, 0, "none", "s:x", "s:"):
+            cases.append({"k": "num", "s": "i%d" % rnd_sec(rng), "us": "i%d" % rnd_us(rng, True), "off": off, "neg": neg,
+                          "kw": rng.random() < 0.5})
     for _ in range(2000 if quick else 40000):
         off = rnd_off16(rng)
-        cases.append({"k": "num", "s": "i%d" % rnd_sec(rng), "us": "i%d" % rnd_us(rng), "off": off,
-                      "neg": rng.random() < (0.5 if off <= 0 else 0.1)})
+        neg = rng.random() < (0.5 if off <= 0 else 0.1)
+        if rng.random() < 0.25:       # truthy / falsy objects that are not booleans
+            neg = rng.choice([1, "s:x", "s:-"]) if neg else rng.choice([0, "none", "s:"])
+        c = {"k": "num", "s": "i%d" % rnd_sec(rng), "us": "i%d" % rnd_us(rng), "off": off, "neg": neg}
+        if rng.random() < 0.3:
+            c["kw"] = True
+        cases.append(c)
+    for off in (10 ** 30, -10 ** 30, 2 ** 63, -2 ** 63, 60 * 10 ** 20 + 59):     # far outside: the assert fires, nothing else
+        cases.append({"k": "num", "s": "i0", "us": "i0", "off": off, "neg": False})
     # 4. aware datetimes: every fixed whole-minute offset, a few other offsets, named zones
     reps = 2 if quick else 12
     for k in range(-1439, 1440):
@@ -608,6 +793,10 @@ def gen(rng, tier):
     # 4b. named zones AT their transitions: repeated hours with fold 0 and 1, gaps, edges (zoneinfo, dateutil, pytz)
     cases += gen_transitions(rng, tier)
     cases.append({"k": "naive", "wall_us": 0})
+    for _ in range(6):
+        cases.append({"k": "naive", "wall_us": rng.randrange(-10 ** 9, 2 * 10 ** 9) * M + rnd_us(rng, True), "how": "tznone"})
+    for v in ("o:date", "o:proxy", "o:tstz-dict-str", "o:list", "o:bytes"):
+        cases.append({"k": "other", "v": v})
     cases.append({"k": "naive", "wall_us": 978307200 * M + 5})
     for tz in TZENV_POOL:
         cases.append({"k": "naive", "wall_us": rng.randrange(-10 ** 9, 2 * 10 ** 9) * M + rnd_us(rng, True), "tzenv": tz})
@@ -644,6 +833,8 @@ def gen(rng, tier):
                       "minus0": tz in ("-00:00", "-0000", "-00")})
     for _ in range(2000 if quick else 40000):
         cases.append(gen_iso(rng))
+    for _ in range(700 if quick else 20000):
+        cases.append(gen_iso_forms(rng))
     # 7. raw offset bytes in the modelled domain
     for _ in range(1500 if quick else 30000):
         ob = rnd_offset_bytes(rng)
@@ -684,6 +875,12 @@ def classify(c):
         if "where" in c:
             ks.append("dt:at-transition:%s%s" % (c["where"], (" fold=%d us%s0" % (c["fold"], "!=" if c["wall_us"] % M else "="))
                                                  if c["where"] in ("repeated", "gap") else ""))
+    if k == "dt" and (c.get("tzclass") or c.get("dtsub")):
+        ks.append("dt:custom-tzinfo-class" if c.get("tzclass") else "dt:datetime-subclass")
+    if k == "num" and (isinstance(c["off"], bool) or c["neg"] not in (True, False) or c.get("kw")):
+        ks.append("num:bool-offset / non-bool flag / keyword call")
+    if k == "iso" and c.get("form"):
+        ks.append("iso:form=" + c["form"])
     if c.get("tzenv"):
         ks.append("machine-zone!=UTC")
     if k == "ts" and c["s"].startswith("i") and c["us"].startswith("i"):
@@ -692,18 +889,24 @@ def classify(c):
         if 0 < u < M:
             ks.append("ts:trailing-zeros" if u % 10 == 0 else "ts:no-trailing-zero")
     if k in ("num", "dold") and c.get("off") is not None:
-        off, neg = c["off"], bool(c.get("neg"))
+        off, neg = c["off"], neg_truth(c.get("neg"))
         ks.append("off:" + ("neg&pos->assert" if neg and off > 0 else "out-of-16bit" if not -32768 <= off < 32768
                             else "-0000" if neg and off == 0 else "zero" if off == 0 else "negative" if off < 0 else "positive"))
     if k == "dict":
         has_b, has_n = c["ob"] != "absent", c["off"] != "absent"
         ks.append("dict:" + ("both" if has_b and has_n else "bytes-only" if has_b else "number-only" if has_n else "neither"))
-        if has_b and isinstance(c["off"], int) and c["ob"] != "nonbytes":
-            b = core.unhx(c["ob"] or ".")
-            ks.append("dict:both:" + ("bytes canonical for the number" if b == canon_bytes(c["off"], c["neg"] is True)
+        if has_b and isinstance(c["off"], int) and not c["ob"].startswith("nonbytes"):
+            b = bytes(ob_value(c["ob"]))
+            ks.append("dict:both:" + ("bytes canonical for the number" if b == canon_bytes(c["off"], neg_truth(c["neg"]))
                                       else "bytes spell another number / not canonical"))
         if c.get("extra"):
             ks.append("dict:extra-keys")
+        if c.get("wrap") or c.get("tswrap"):
+            ks.append("dict:container=%s/%s" % (c.get("wrap", "dict"), c.get("tswrap", "dict")))
+        if c["ob"].startswith(("sub:", "nonbytes:")):
+            ks.append("dict:offset_bytes-type=" + c["ob"].split(":")[0 if c["ob"].startswith("sub") else 1])
+        if c["neg"] not in ("absent", "none", True, False) or isinstance(c["off"], bool):
+            ks.append("dict:flag-or-offset-of-another-type")
     if k == "iso":
         ks.append("iso:-00:00" if c["minus0"] else "iso:other")
     if k == "pob":
@@ -724,7 +927,36 @@ def show_impl(x):
         res["td"] = abstr(x.to_datetime())
     except Exception as e:
         res["td"] = "!" + core.exc_class(e)
+    # the other routes are walked for a deterministic third of the objects (a function of the object alone, so that a
+    # replay behaves like the run), and for every object with non-canonical offset bytes
+    if (x.timestamp.seconds + x.timestamp.microseconds + len(x.offset_bytes)) % 3 == 0 or len(x.offset_bytes) != 5:
+        res["rt"] = routes_check(x)
     return res
+
+
+def routes_check(x):
+    """the other public routes to the same object: to_dict() has the documented shape, from_dict(to_dict()) and the
+    direct constructor (keywords and positional) give an equal object with equal hash and the same bytes"""
+    try:
+        d = x.to_dict()
+        want = {"timestamp": {"seconds": x.timestamp.seconds, "microseconds": x.timestamp.microseconds},
+                "offset_bytes": x.offset_bytes}
+        if d != want or type(d["offset_bytes"]) is not type(x.offset_bytes):
+            return "to_dict() is %r" % (d,)
+        if x.timestamp.to_dict() != want["timestamp"]:
+            return "Timestamp.to_dict() is %r" % (x.timestamp.to_dict(),)
+        for how, y in (("from_dict(to_dict())", TSTZ.from_dict(d)),
+                       ("keyword constructor", TSTZ(timestamp=Timestamp(seconds=x.timestamp.seconds,
+                                                                        microseconds=x.timestamp.microseconds),
+                                                    offset_bytes=x.offset_bytes)),
+                       ("positional constructor", TSTZ(Timestamp(x.timestamp.seconds, x.timestamp.microseconds), x.offset_bytes)),
+                       ("from_dict(Timestamp.to_dict())", TSTZ(Timestamp.from_dict(x.timestamp.to_dict()), x.offset_bytes))):
+            if y != x or hash(y) != hash(x) or y.offset_bytes != x.offset_bytes or \
+                    (y.timestamp.seconds, y.timestamp.microseconds) != (x.timestamp.seconds, x.timestamp.microseconds):
+                return "%s gives %r for %r" % (how, y, x)
+    except Exception as e:
+        return "route raised " + core.exc_class(e)
+    return "ok"
 
 
 _GRID_IMPL, _GRID_MODEL = {}, {}     # (lo, n) -> full per-point lists (kept out of the evidence file)
@@ -765,10 +997,15 @@ def _impl(c):
             t = Timestamp(seconds=pv(c["s"]), microseconds=pv(c["us"]))
             fd = format_date(t)
             fd2 = format_date({"seconds": pv(c["s"]), "microseconds": pv(c["us"])})
-            return {"s": t.seconds, "us": t.microseconds, "fd": core.hx(fd), "fd_dict": core.hx(fd2)}
+            t2, t3 = Timestamp(pv(c["s"]), pv(c["us"])), Timestamp.from_dict({"microseconds": pv(c["us"]), "seconds": pv(c["s"])})
+            rt = "ok" if t2 == t and t3 == t and hash(t2) == hash(t) and format_date(t2) == fd and format_date(t3) == fd \
+                else "positional / from_dict construction differs"
+            return {"s": t.seconds, "us": t.microseconds, "fd": core.hx(fd), "fd_dict": core.hx(fd2), "rt": rt}
         if k == "num":
             t = Timestamp(seconds=pv(c["s"]), microseconds=pv(c["us"]))
-            return show_impl(TSTZ.from_numeric_offset(t, c["off"], c["neg"]))
+            if c.get("kw"):
+                return show_impl(TSTZ.from_numeric_offset(negative_utc=neg_value(c["neg"]), offset=c["off"], timestamp=t))
+            return show_impl(TSTZ.from_numeric_offset(t, c["off"], neg_value(c["neg"])))
         if k == "dnew":
             d = {"offset_bytes": "+0000" if c["ob"] == "nonbytes" else core.unhx(c["ob"] or ".")}
             if c["t"] != "missing":
@@ -784,23 +1021,39 @@ def _impl(c):
                 d["negative_utc"] = c["neg"]
             return show_impl(TSTZ.from_dict(d))
         if k == "dict":
+            import collections
+            import copy
+            import types
             d = {}
             if c["t"] != "missing":
-                d["timestamp"] = tsrepr_value(c["t"])
+                tv = tsrepr_value(c["t"])
+                if isinstance(tv, dict) and c.get("tswrap"):
+                    tv = {"ordered": collections.OrderedDict, "sub": DictSub}[c["tswrap"]](tv)
+                d["timestamp"] = tv
             if c["ob"] != "absent":
-                d["offset_bytes"] = "+0000" if c["ob"] == "nonbytes" else core.unhx(c["ob"] or ".")
+                d["offset_bytes"] = ob_value(c["ob"])
             if c["off"] != "absent":
                 d["offset"] = None if c["off"] == "none" else c["off"]
             if c["neg"] != "absent":
-                d["negative_utc"] = None if c["neg"] == "none" else c["neg"]
+                d["negative_utc"] = neg_value(c["neg"])
             if c.get("extra"):
                 d["offset_str"] = "+0100"
                 d["tz"] = "Europe/Paris"
                 d[""] = None
-            keep = dict(d)
+            w = c.get("wrap")
+            if w == "ordered":
+                d = collections.OrderedDict(reversed(list(d.items())))
+            elif w == "sub":
+                d = DictSub(d)
+            elif w == "proxy":
+                d = types.MappingProxyType(d)
+            keep = copy.deepcopy(dict(d))
             res = show_impl(TSTZ.from_dict(d))
-            if d != keep:
-                return {"error": "from_dict changed its argument"}
+            if dict(d) != keep:
+                return {"error": "harness-detected: from_dict changed its argument"}
+            res2 = show_impl(TSTZ.from_dict(d))           # the same call again: nothing may be remembered
+            if res2 != res:
+                return {"error": "harness-detected: from_dict gives another result the second time"}
             return res
         if k == "dt":
             dt = dt_of_case(c)
@@ -810,7 +1063,8 @@ def _impl(c):
                 return {"error": "from_datetime and from_dict(datetime) differ"}
             return r1
         if k == "naive":
-            return show_impl(TSTZ.from_datetime(mk_wall(c["wall_us"])))
+            w = mk_wall(c["wall_us"])
+            return show_impl(TSTZ.from_datetime(w.replace(tzinfo=NoneTz()) if c.get("how") == "tznone" else w))
         if k == "int":
             return show_impl(TSTZ.from_dict(pv(c["v"])))
         if k == "other":
@@ -832,15 +1086,18 @@ def requests(c):
     if k == "ts":
         return ["ts %s %s" % (pv_tok(c["s"]), pv_tok(c["us"]))]
     if k == "num":
-        return ["num %s %s %d %s" % (pv_tok(c["s"]), pv_tok(c["us"]), c["off"], "T" if c["neg"] else "F")]
+        return ["num %s %s %d %s" % (pv_tok(c["s"]), pv_tok(c["us"]), c["off"], "T" if neg_truth(c["neg"]) else "F")]
     if k == "dnew":
         return ["dnew %s %s" % (tsrepr_tok(c["t"]), c["ob"] if c["ob"] else ".")]
     if k == "dold":
         return ["dold %s %s %s" % (tsrepr_tok(c["t"]), "absent" if c["off"] is None else c["off"],
                                    "absent" if c["neg"] is None else ("T" if c["neg"] else "F"))]
     if k == "dict":
-        return ["dict %s %s %s %s" % (tsrepr_tok(c["t"]), c["ob"] if c["ob"] else ".",
-                                      c["off"], "absent" if c["neg"] in ("absent", "none") else ("T" if c["neg"] else "F"))]
+        if c.get("wrap") == "proxy":
+            return ["other"]                     # a Mapping that is not a dict: like any other object
+        return ["dict %s %s %s %s" % (tsrepr_tok(c["t"]), ob_tok(c["ob"]) if c["ob"] != "absent" else "absent",
+                                      ("%d" % c["off"]) if isinstance(c["off"], int) else c["off"],
+                                      "absent" if c["neg"] == "absent" else ("T" if neg_truth(c["neg"]) else "F"))]
     if k == "dt":
         a = abstr(dt_of_case(c))          # the input datetime as the model sees it (zoneinfo gives the offset)
         if a is None:
@@ -961,9 +1218,11 @@ def oracle_tstz_common(ires):
 def oracle(c, ires, mres):
     k = c["k"]
     ok = "error" not in ires
-    if ires.get("error") in ("bad case", "Timeout") or (not ok and ires["error"].startswith("from_datetime and")):
+    if ires.get("error") in ("bad case", "Timeout") or (not ok and ires["error"].startswith(("from_datetime and", "harness-detected:"))):
         return "implementation: " + ires["error"]
     why = oracle_tstz_common(ires) if ok else None
+    if ok and ires.get("rt", "ok") != "ok":
+        return "routes to the same object disagree: " + ires["rt"]
     if why:
         return why
     if k == "grid":
@@ -1000,7 +1259,7 @@ def oracle(c, ires, mres):
             return None if not ok else "out-of-range timestamp accepted"
         if ok and (ires["s"], ires["us"]) != (s, u):
             return "timestamp changed"
-        return oracle_offset(c["off"], c["neg"], ok, core.unhx(ires["ob"]) if ok else None, ires.get("om"))
+        return oracle_offset(c["off"], neg_truth(c["neg"]), ok, core.unhx(ires["ob"]) if ok else None, ires.get("om"))
     if k == "dold":
         if ok and c["off"] is not None:
             return oracle_offset(c["off"], bool(c["neg"]), ok, core.unhx(ires["ob"]), ires.get("om"))
@@ -1010,14 +1269,14 @@ def oracle(c, ires, mres):
             return "offset_bytes %r recorded as %r" % (core.unhx(c["ob"] or "."), core.unhx(ires["ob"]))
         return None
     if k == "dict":
-        if not ok and ires["error"] == "from_dict changed its argument":
-            return ires["error"]
         exp = ts_expect(c["t"])
         if exp is None:
             return None if not ok else "unacceptable timestamp member %r accepted" % c["t"]
-        if c["ob"] not in ("absent", "nonbytes"):
-            # recorded bytes: kept verbatim, whatever else the dict carries
-            want = core.unhx(c["ob"] or ".")
+        if c.get("wrap") == "proxy":
+            return None
+        if c["ob"] != "absent" and not c["ob"].startswith("nonbytes"):
+            # recorded bytes (a bytes object or an instance of a subclass): kept verbatim, whatever else the dict carries
+            want = bytes(ob_value(c["ob"]))
             if not ok:
                 return "dict with recorded offset bytes %r (legacy offset %r, negative_utc %r) rejected with %s" % (
                     want, c["off"], c["neg"], ires["error"])
@@ -1029,7 +1288,7 @@ def oracle(c, ires, mres):
             return None
         if c["ob"] == "absent" and isinstance(c["off"], int):
             # numeric form only: through the +HHMM / -HHMM rule
-            neg = c["neg"] is True
+            neg = neg_truth(c["neg"])
             why = oracle_offset(c["off"], neg, ok, core.unhx(ires["ob"]) if ok else None, ires.get("om"))
             if why:
                 return why
